@@ -143,10 +143,11 @@ class Parser:
         raise SyntaxError(f"unexpected token {k} {v}")
 
 
-def parse_grammar(text, with_core=True):
+def parse_grammar(text, with_core=True, overrides=None):
+    """overrides: optional ABNF text whose rules replace same-named rules of `text`"""
     rules = {}
     order = []
-    for src in ([CORE] if with_core else []) + [text]:
+    for src in ([CORE] if with_core else []) + [text] + ([overrides] if overrides else []):
         for r in split_rules(src):
             toks = tokenize(r)
             assert toks[0][0] == 'name' and toks[1] == ('op', '='), r
@@ -155,7 +156,7 @@ def parse_grammar(text, with_core=True):
             node = p.alternation()
             assert p.i == len(toks) - 2, (r, p.i, toks)
             key = name.lower()
-            if key in rules and src is not CORE:
+            if key in rules and src is not CORE and src is not overrides:
                 if key in ('alpha', 'digit', 'hexdig'):
                     pass
                 else:
